@@ -389,6 +389,18 @@ def lexText (fmt : Fmt) (s : Str) : Option Rows :=
   | .matrix => some (.matrix (lexMatrix s))
   | _ => none
 
+/-- `readGraph(file, graph_type, file_format)` on the CHARACTERS of an in-house format: the physical
+lines (`universal = true`: a text-mode file, which translates "\r\n" and "\r" to "\n" first;
+`false`: a `StringIO`), the lexer of the format, the reader, the acyclicity test.  gml / dot are
+parsed by third-party code that is not modelled (`runtimeError` marks "outside the model"). -/
+def readText (universal : Bool) (ty : GType) (fmt : Fmt) (s : Str) : Except Err AnyG :=
+  match checkArgs ty fmt with
+  | .error e => .error e
+  | .ok () =>
+    match lexText fmt (if universal then universalNL s else s) with
+    | some rows => readGraph ty rows
+    | none => .error .runtimeError
+
 /-! ## gml / dot: the relabelling after the third-party parser -/
 
 def insertBy {α} (le : α → α → Bool) (x : α) : List α → List α
